@@ -109,14 +109,14 @@ theorem binopI_eq (g fork : Nat) (f : Nat → Nat → Nat) (s : IState) (hwf : s
     rw [bind_halt _ _ _ _ _ _ hc]
     simp [hen, Exec.toDone]
 
-theorem step_binop (s : IState) (op g fork : Nat) (f : Nat → Nat → Nat) (hcode : s.code[s.pc]? = some op)
-    (hdec : decode op = .binop g fork f) (hwf : s.gas.remaining < U64) :
-    step s = .pure (binopRule g fork f s) := by
+theorem step_binop (s : IState) (op : Nat) (g : Tier) (fork : Nat) (f : Nat → Nat → Nat)
+    (hcode : s.code[s.pc]? = some op) (hdec : decode op = .binop g fork f) (hwf : s.gas.remaining < U64) :
+    step s = .pure (binopRule g.cost fork f s) := by
   unfold step
   rw [hcode]
   simp only [hdec, execInstr, execPure]
-  show Outcome.pure (binopI g fork f (adv s)).toDone = _
-  rw [binopI_eq g fork f (adv s) hwf]
+  show Outcome.pure (binopI g.cost fork f (adv s)).toDone = _
+  rw [binopI_eq g.cost fork f (adv s) hwf]
   rfl
 
 
@@ -213,37 +213,34 @@ theorem teropI_eq (g : Nat) (f : Nat → Nat → Nat → Nat) (s : IState) (hwf 
       have := setTop_ok { s2 with stack := rest.reverse ++ [c] } rest.reverse c (f a b c) rfl
       simp only [this, Exec.toDone, List.reverse_cons]
 
-theorem step_unop (s : IState) (op g : Nat) (f : Nat → Nat) (hcode : s.code[s.pc]? = some op)
+theorem step_unop (s : IState) (op : Nat) (g : Tier) (f : Nat → Nat) (hcode : s.code[s.pc]? = some op)
     (hdec : decode op = .unop g f) (hwf : s.gas.remaining < U64) :
-    step s = .pure (unopRule g f s) := by
+    step s = .pure (unopRule g.cost f s) := by
   unfold step
   rw [hcode]
   simp only [hdec, execInstr, execPure]
-  show Outcome.pure (unopI g f (adv s)).toDone = _
-  rw [unopI_eq g f (adv s) hwf]
+  show Outcome.pure (unopI g.cost f (adv s)).toDone = _
+  rw [unopI_eq g.cost f (adv s) hwf]
   rfl
 
-theorem step_terop (s : IState) (op g : Nat) (f : Nat → Nat → Nat → Nat) (hcode : s.code[s.pc]? = some op)
-    (hdec : decode op = .terop g f) (hwf : s.gas.remaining < U64) :
-    step s = .pure (teropRule g f s) := by
+theorem step_terop (s : IState) (op : Nat) (g : Tier) (f : Nat → Nat → Nat → Nat)
+    (hcode : s.code[s.pc]? = some op) (hdec : decode op = .terop g f) (hwf : s.gas.remaining < U64) :
+    step s = .pure (teropRule g.cost f s) := by
   unfold step
   rw [hcode]
   simp only [hdec, execInstr, execPure]
-  show Outcome.pure (teropI g f (adv s)).toDone = _
-  rw [teropI_eq g f (adv s) hwf]
+  show Outcome.pure (teropI g.cost f (adv s)).toDone = _
+  rw [teropI_eq g.cost f (adv s) hwf]
   rfl
 
 /-! ## `check!; gas!; push!(value)`: the environment reads, PC, MSIZE, GAS -/
 
-theorem pushValI_eq (g fork : Nat) (v : IState → Option Nat) (s : IState) (hwf : s.gas.remaining < U64) :
+theorem pushValI_eq (g fork : Nat) (v : IState → Nat) (s : IState) (hwf : s.gas.remaining < U64) :
     (pushValI g fork v s).toDone =
       (if !enabled s.spec fork then Done.halt .NotActivated [] s
        else if s.gas.remaining < g then .halt .OutOfGas [] s
-       else match v (charge s g) with
-         | none => .fault .panic
-         | some w =>
-           if s.stack.length = 1024 then .halt .StackOverflow [] (charge s g)
-           else .next { charge s g with stack := s.stack ++ [w] }) := by
+       else if s.stack.length = 1024 then .halt .StackOverflow [] (charge s g)
+       else .next { charge s g with stack := s.stack ++ [v (charge s g)] }) := by
   unfold pushValI
   by_cases hen : enabled s.spec fork
   · have hc : check fork s = .ok () s := by simp [check, hen]
@@ -258,27 +255,69 @@ theorem pushValI_eq (g fork : Nat) (v : IState → Option Nat) (s : IState) (hwf
       rw [hch]
       have hget : getS s2 = .ok s2 s2 := rfl
       rw [bind_ok _ _ _ _ _ hget]
-      cases hv : v s2 with
+      simp only [push, Stack.push, Stack.STACK_LIMIT, hst]
+      by_cases hl : s.stack.length = 1024
+      · simp only [hl, if_true, Exec.toDone, stackErr]
+      · simp only [hl, if_false, Exec.toDone]
+  · have hc : check fork s = .halt .NotActivated [] s := by simp [check, hen]
+    rw [bind_halt _ _ _ _ _ _ hc]
+    simp [hen, Exec.toDone]
+
+theorem step_pushVal (s : IState) (op : Nat) (g : Tier) (fork : Nat) (v : IState → Nat)
+    (hcode : s.code[s.pc]? = some op) (hdec : decode op = .pushVal g fork v) (hwf : s.gas.remaining < U64) :
+    step s = .pure (pushValRule g.cost fork v s) := by
+  unfold step
+  rw [hcode]
+  simp only [hdec, execInstr, execPure]
+  show Outcome.pure (pushValI g.cost fork v (adv s)).toDone = _
+  rw [pushValI_eq g.cost fork v (adv s) hwf]
+  rfl
+
+theorem difficultyI_eq (s : IState) (hwf : s.gas.remaining < U64) :
+    (difficultyI s).toDone =
+      (if s.gas.remaining < GasCalc.BASE then Done.halt .OutOfGas [] s
+       else
+         match (if enabled s.spec GasCalc.SpecId.MERGE then s.env.prevrandao else some s.env.difficulty) with
+         | none => .fault .panic
+         | some w =>
+           if s.stack.length = 1024 then .halt .StackOverflow [] (charge s GasCalc.BASE)
+           else .next { charge s GasCalc.BASE with stack := s.stack ++ [w] }) := by
+  unfold difficultyI
+  by_cases hg : s.gas.remaining < GasCalc.BASE
+  · rw [bind_halt _ _ _ _ _ _ (gasCharge_fail s _ hg), if_pos hg]; rfl
+  · rw [bind_ok _ _ _ _ _ (gasCharge_ok s _ hwf (by omega)), if_neg hg]
+    generalize hs2 : ({ s with gas := { s.gas with remaining := s.gas.remaining - GasCalc.BASE } } : IState) = s2
+    have hst : s2.stack = s.stack := by rw [← hs2]
+    have hsp : s2.spec = s.spec := by rw [← hs2]
+    have henv : s2.env = s.env := by rw [← hs2]
+    have hch : charge s GasCalc.BASE = s2 := hs2
+    rw [hch]
+    have hget : getS s2 = .ok s2 s2 := rfl
+    rw [bind_ok _ _ _ _ _ hget, hsp, henv]
+    by_cases hm : enabled s.spec GasCalc.SpecId.MERGE
+    · simp only [hm, if_true]
+      cases hp : s.env.prevrandao with
       | none => rfl
       | some w =>
         simp only [push, Stack.push, Stack.STACK_LIMIT, hst]
         by_cases hl : s.stack.length = 1024
         · simp only [hl, if_true, Exec.toDone, stackErr]
         · simp only [hl, if_false, Exec.toDone]
-  · have hc : check fork s = .halt .NotActivated [] s := by simp [check, hen]
-    rw [bind_halt _ _ _ _ _ _ hc]
-    simp [hen, Exec.toDone]
+    · simp only [hm, if_false, Bool.false_eq_true]
+      simp only [push, Stack.push, Stack.STACK_LIMIT, hst]
+      by_cases hl : s.stack.length = 1024
+      · simp only [hl, if_true, Exec.toDone, stackErr]
+      · simp only [hl, if_false, Exec.toDone]
 
-theorem step_pushVal (s : IState) (op g fork : Nat) (v : IState → Option Nat) (hcode : s.code[s.pc]? = some op)
-    (hdec : decode op = .pushVal g fork v) (hwf : s.gas.remaining < U64) :
-    step s = .pure (pushValRule g fork v s) := by
+theorem step_difficulty (s : IState) (hcode : s.code[s.pc]? = some 0x44) (hwf : s.gas.remaining < U64) :
+    step s = .pure (difficultyRule s) := by
   unfold step
   rw [hcode]
+  have hdec : decode 0x44 = .difficulty := rfl
   simp only [hdec, execInstr, execPure]
-  show Outcome.pure (pushValI g fork v (adv s)).toDone = _
-  rw [pushValI_eq g fork v (adv s) hwf]
+  show Outcome.pure (difficultyI (adv s)).toDone = _
+  rw [difficultyI_eq (adv s) hwf]
   rfl
-
 
 /-! ## POP, PUSH0, JUMPDEST, DUP, SWAP, PUSH -/
 
@@ -304,10 +343,10 @@ theorem popI_eq (s : IState) (hwf : s.gas.remaining < U64) :
     rw [hch, stackCall_eq, hst]
     rcases hrev : s.stack.reverse with _ | ⟨a, rest⟩
     · have : s.stack = [] := by simpa using hrev
-      simp [this, Stack.pop, Exec.toDone, stackErr]
+      simp [this, Stack.pop, Exec.toDone, stackErr, resVoid]
     · have hs : s.stack = rest.reverse ++ [a] := by
         have := congrArg List.reverse hrev; simpa using this
-      simp [hs, Stack.pop, Exec.toDone]
+      simp [hs, Stack.pop, Exec.toDone, resVoid]
 
 theorem step_pop (s : IState) (hcode : s.code[s.pc]? = some 0x50) (hwf : s.gas.remaining < U64) :
     step s = .pure (popRule s) := by
